@@ -227,13 +227,16 @@ def wf_maps3(n, with_unused=False):
                     yield b0, b1, b2, b3, u
 
 
-def ops3_all(darts, dims=(1, 2, 3), force=False, extra=True):
-    """every link/unlink/sew/unsew of every dimension with every argument pair among `darts`"""
+def ops3_all(darts, dims=(1, 2, 3), force=False, extra=True, distinct=False):
+    """every link/unlink/sew/unsew of every dimension with every argument pair among `darts`
+    (`distinct`: skip l == r for 2- and 3-links/sews, the guard of C02)"""
     f = "f" if force else ""
     ops = []
     for i in dims:
         for l in darts:
             for r in darts:
+                if distinct and i != 1 and l == r:
+                    continue
                 ops.append(f"{f}link {i} {l} {r}")
                 ops.append(f"{f}sew {i} {l} {r}")
             ops.append(f"{f}unlink {i} {l}")
@@ -279,7 +282,7 @@ def observe3(darts, nt=False, policies=OBS3_POLICIES):
 
 
 def faces3_cases(rng, max_faces=2, max_sides=4, mask=31, frac=1.0, per_map=None, with_null=False,
-                 pre_ops=0, observe=False):
+                 pre_ops=0, observe=False, distinct=False, snap_before=False):
     """single-op cases over the glued-faces family: for every map of `faces3_maps` and every
     link/unlink/sew/unsew (all dimensions, all argument pairs; `per_map` = random sample size),
     optionally after `pre_ops` random ops (which create 2-/3-links).  yields (name, lines)."""
@@ -290,14 +293,15 @@ def faces3_cases(rng, max_faces=2, max_sides=4, mask=31, frac=1.0, per_map=None,
         darts = list(range(1, n + 1))
         args = ([0] if with_null else []) + darts + ([n + 1] if with_null else [])
         load = load_line(3, n, mask, rows, [0] * (n + 1))
-        ops = ops3_all(args, force=False, extra=False) + ops3_all(args, force=True, extra=False)
+        ops = ops3_all(args, force=False, extra=False, distinct=distinct) \
+            + ops3_all(args, force=True, extra=False, distinct=distinct)
         if per_map is not None and per_map < len(ops):
             ops = rng.sample(ops, per_map)
         vals = value_lines(rng, n, mask, dim=3, pv=rng.choice([1.0, 0.6, 0.0]), pa=rng.choice([1.0, 0.5]))
         pre = [random_op3(rng, darts, alloc=False, weights=[4, 4, 1, 1]) for _ in range(pre_ops)]
         for op in ops:
             cid += 1
-            lines = [load] + vals + pre + [op, "snap", "wf"]
+            lines = [load] + vals + pre + (["snap"] if snap_before else []) + [op, "snap", "wf"]
             if observe:
                 lines += observe3(darts)
             yield f"f3-{cid}", lines
@@ -438,3 +442,41 @@ def cell_pairs():
         ("cube+prism", CUBE, poly_mirror(PRISM, 1, 0)),
         ("pyramid+pyramid", PYRAMID, poly_mirror(PYRAMID, 2, 0)),
     ]
+
+
+def parse_snap(line):
+    """`snap ...` output line -> dict: 'n', 'b0'..'b3' (lists of int), 'u', and raw 'a<k>' token lists"""
+    parts = [p.strip() for p in line.split("|")]
+    out = {"n": int(parts[0].split("=")[1])}
+    for p in parts[1:]:
+        k, _, v = p.partition(":")
+        toks = v.split()
+        out[k.strip()] = [int(t) for t in toks] if k.strip()[0] in "bu" else toks
+    return out
+
+
+def face_shape3(snap, d, right=False):
+    """shape of the face of dart d walked as `three_link` does (β1 forward on the left side, β0 on the
+    right side): ('closed', sides) or ('open', sides, darts_ahead)"""
+    fwd, bwd = (snap["b0"], snap["b1"]) if right else (snap["b1"], snap["b0"])
+    n = snap["n"]
+    ahead, x = 0, fwd[d] if d < n else 0
+    while x != 0 and x != d and ahead <= n:
+        ahead += 1
+        x = fwd[x] if x < n else 0
+    if x == d and d != 0:
+        return ("closed", ahead + 1)
+    behind, x = 0, bwd[d] if d < n else 0
+    while x != 0 and behind <= n:
+        behind += 1
+        x = bwd[x] if x < n else 0
+    return ("open", ahead + behind + 1, ahead)
+
+
+def mirror3(b1, b3):
+    """the Mirror predicate of Model/WF.lean on β rows given as lists"""
+    n = len(b1)
+    for d in range(n):
+        if b1[d] != 0 and b3[d] != 0 and b3[b1[d]] != 0 and b1[b3[b1[d]]] != b3[d]:
+            return False
+    return True
